@@ -33,6 +33,7 @@ import (
 type inlineState struct {
 	p     *Prog
 	isNew map[*types.Func]*FuncInfo
+	tailOnly map[*types.Func]bool // helpers with defer / recover: inlined only where their return is the caller's return
 	n     int
 	notes []string
 }
@@ -42,7 +43,7 @@ func (p *Prog) applyInlining() {
 	if len(rs.index) == 0 {
 		return
 	}
-	st := &inlineState{p: p, isNew: map[*types.Func]*FuncInfo{}}
+	st := &inlineState{p: p, isNew: map[*types.Func]*FuncInfo{}, tailOnly: map[*types.Func]bool{}}
 	for _, pk := range p.ServerPkgs() {
 		rel := strings.TrimPrefix(strings.TrimPrefix(pk.PkgPath, modPath), "/")
 		pk := pk
@@ -56,10 +57,12 @@ func (p *Prog) applyInlining() {
 			if refName(fi.Obj) != fi.Obj.Name() {
 				return // a renamed anchor
 			}
-			if !inlinable(fi) {
+			ok, tail := inlinable(fi)
+			if !ok {
 				return
 			}
 			st.isNew[fi.Obj] = fi
+			st.tailOnly[fi.Obj] = tail
 		})
 	}
 	if len(st.isNew) == 0 {
@@ -93,19 +96,19 @@ func (p *Prog) applyInlining() {
 	p.inlineNotes = st.notes
 }
 
-func inlinable(fi *FuncInfo) bool {
+func inlinable(fi *FuncInfo) (ok bool, tailOnly bool) {
 	sig := fi.Obj.Type().(*types.Signature)
 	if sig.Variadic() || sig.TypeParams() != nil || sig.RecvTypeParams() != nil {
-		return false
+		return false, false
 	}
-	ok := true
+	ok = true
 	inspectNoLit(fi.Decl.Body, func(n ast.Node) bool {
 		switch x := n.(type) {
 		case *ast.DeferStmt:
-			ok = false
+			tailOnly = true
 		case *ast.CallExpr:
 			if id, isID := x.Fun.(*ast.Ident); isID && id.Name == "recover" {
-				ok = false
+				tailOnly = true
 			}
 		case *ast.LabeledStmt, *ast.BranchStmt:
 			// labels of the helper would have to be renamed per copy; goto-free helpers with labelled loops are rare
@@ -116,7 +119,7 @@ func inlinable(fi *FuncInfo) bool {
 		}
 		return ok
 	})
-	return ok
+	return ok, tailOnly
 }
 
 // funcBody processes a function (or function-literal) body and the bodies of the literals nested in it.
@@ -128,10 +131,73 @@ func (st *inlineState) funcBody(pk *packagesPkg, body *ast.BlockStmt, stack []*t
 		}
 		return true
 	})
+	st.tailStmt(pk, body, stack)
 	body.List = st.stmts(pk, body.List, stack)
 	for _, fl := range lits {
+		st.tailStmt(pk, fl.Body, stack)
 		fl.Body.List = st.stmts(pk, fl.Body.List, stack)
 	}
+}
+
+// tailStmt: a helper call that is the last statement of a body returns where the body returns.
+func (st *inlineState) tailStmt(pk *packagesPkg, body *ast.BlockStmt, stack []*types.Func) {
+	for i := 0; i < 6 && len(body.List) > 0; i++ {
+		es, ok := body.List[len(body.List)-1].(*ast.ExprStmt)
+		if !ok {
+			return
+		}
+		call, ok := ast.Unparen(es.X).(*ast.CallExpr)
+		if !ok {
+			return
+		}
+		h := st.eligibleT(pk, call, stack, true)
+		if h == nil || !st.tailOnly[h.Obj] || h.Obj.Type().(*types.Signature).Results().Len() != 0 {
+			return // ordinary helpers are handled by the general case
+		}
+		body.List = append(body.List[:len(body.List)-1:len(body.List)-1], st.tailBody(pk, call, h, stack)...)
+		stack = append(append([]*types.Func{}, stack...), h.Obj)
+	}
+}
+
+// tailBody: parameters bound, body copied, returns kept.
+func (st *inlineState) tailBody(pk *packagesPkg, call *ast.CallExpr, h *FuncInfo, stack []*types.Func) []ast.Stmt {
+	info := pk.TypesInfo
+	pos := call.Pos()
+	mapping := map[ast.Node]ast.Node{}
+	body := cloneNode(h.Decl.Body, mapping).(*ast.BlockStmt)
+	copyInfo(info, mapping)
+	var pre []ast.Stmt
+	bind := func(names []*ast.Ident, arg ast.Expr) {
+		if len(names) == 0 || names[0].Name == "_" {
+			return
+		}
+		obj := info.Defs[names[0]]
+		if obj != nil && pureExpr(arg) && !assignedOrAddressed(info, h.Decl.Body, obj) {
+			substituteObj(info, body, obj, arg)
+			return
+		}
+		id := st.newIdent(pk, names[0].Name, pos, obj, true)
+		pre = append(pre, &ast.AssignStmt{Lhs: []ast.Expr{id}, TokPos: pos, Tok: token.DEFINE, Rhs: []ast.Expr{arg}})
+	}
+	if h.Decl.Recv != nil && len(h.Decl.Recv.List) == 1 {
+		if sel, ok := ast.Unparen(call.Fun).(*ast.SelectorExpr); ok {
+			bind(h.Decl.Recv.List[0].Names, sel.X)
+		}
+	}
+	ai := 0
+	for _, fld := range h.Decl.Type.Params.List {
+		if len(fld.Names) == 0 {
+			ai++
+			continue
+		}
+		for _, nm := range fld.Names {
+			bind([]*ast.Ident{nm}, call.Args[ai])
+			ai++
+		}
+	}
+	st.funcBody(pk, body, append(append([]*types.Func{}, stack...), h.Obj))
+	st.notes = append(st.notes, "new helper "+h.Name()+" in return position at "+st.p.Pos(call.Pos())+" read in place")
+	return append(pre, body.List...)
 }
 
 func (st *inlineState) stmts(pk *packagesPkg, list []ast.Stmt, stack []*types.Func) []ast.Stmt {
@@ -195,15 +261,25 @@ func (st *inlineState) stmt(pk *packagesPkg, s ast.Stmt, stack []*types.Func, ro
 		return []ast.Stmt{s}
 	}
 	info := pk.TypesInfo
+	_ = info
 	// go / defer of a helper
 	switch x := s.(type) {
 	case *ast.GoStmt:
-		if h := st.eligible(pk, x.Call, stack); h != nil {
+		if h := st.eligibleT(pk, x.Call, stack, true); h != nil {
 			x.Call = st.asLiteralCall(pk, x.Call, h, stack)
 			return []ast.Stmt{s}
 		}
+	case *ast.ReturnStmt:
+		// `return helper(…)`: the helper's returns are the caller's returns – also for helpers with defer
+		if len(x.Results) == 1 {
+			if call, isCall := ast.Unparen(x.Results[0]).(*ast.CallExpr); isCall {
+				if h := st.eligibleT(pk, call, stack, true); h != nil {
+					return st.restmts(pk, st.tailBody(pk, call, h, stack), stack, round)
+				}
+			}
+		}
 	case *ast.DeferStmt:
-		if h := st.eligible(pk, x.Call, stack); h != nil {
+		if h := st.eligibleT(pk, x.Call, stack, true); h != nil {
 			x.Call = st.asLiteralCall(pk, x.Call, h, stack)
 			return []ast.Stmt{s}
 		}
@@ -246,11 +322,59 @@ func (st *inlineState) stmt(pk *packagesPkg, s ast.Stmt, stack []*types.Func, ro
 		if call == nil {
 			continue
 		}
-		pre, results, ok := st.instantiate(pk, call, helper, stack)
+		// `x, y := helper(…)` / `x, y = helper(…)` with plain names on the left: the helper's returns assign x and y directly
+		var lhsObjs []types.Object
+		if as, isAs := h.(*ast.AssignStmt); isAs && len(as.Rhs) == 1 && ast.Unparen(as.Rhs[0]) == ast.Expr(call) && helper.Obj.Type().(*types.Signature).Results().Len() == len(as.Lhs) && len(as.Lhs) > 0 && (s == ast.Stmt(as) || initOf(s) == ast.Stmt(as)) {
+			all := true
+			for _, l := range as.Lhs {
+				id, isID := ast.Unparen(l).(*ast.Ident)
+				if !isID {
+					all = false
+					break
+				}
+				if id.Name == "_" {
+					lhsObjs = append(lhsObjs, nil)
+					continue
+				}
+				o := info.Defs[id]
+				if o == nil {
+					o = info.Uses[id]
+				}
+				if _, isVar := o.(*types.Var); !isVar {
+					all = false
+					break
+				}
+				lhsObjs = append(lhsObjs, o)
+			}
+			if !all {
+				lhsObjs = nil
+			}
+		}
+		pre, results, ok := st.instantiate(pk, call, helper, stack, lhsObjs)
 		if !ok {
 			continue
 		}
+		if lhsObjs != nil && results == nil {
+			// the assignment is expressed by the copy's returns
+			if initOf(s) == h {
+				switch x := s.(type) {
+				case *ast.IfStmt:
+					x.Init = nil
+				case *ast.SwitchStmt:
+					x.Init = nil
+				}
+				inner := st.stmt(pk, s, stack, round+1)
+				return []ast.Stmt{&ast.BlockStmt{Lbrace: s.Pos(), List: append(st.restmts(pk, pre, stack, round), inner...), Rbrace: s.End()}}
+			}
+			return st.restmts(pk, pre, stack, round)
+		}
 		nres := len(results)
+		// `x, y := helper()` where the helper ends in `return a, b` with a, b locals of the helper: a and b ARE x and y
+		if as, isAs := h.(*ast.AssignStmt); isAs && len(as.Rhs) == 1 && ast.Unparen(as.Rhs[0]) == ast.Expr(call) && len(as.Lhs) == nres && nres > 0 {
+			if unifyResults(info, as, results, helper, pre) {
+				return st.restmts(pk, pre, stack, round)
+			}
+		}
 		var repl []ast.Stmt
 		switch {
 		case nres == 0:
@@ -333,12 +457,19 @@ func (st *inlineState) clauses(pk *packagesPkg, body *ast.BlockStmt, stack []*ty
 
 // eligible: the helper a call resolves to, if it may be inlined here.
 func (st *inlineState) eligible(pk *packagesPkg, call *ast.CallExpr, stack []*types.Func) *FuncInfo {
+	return st.eligibleT(pk, call, stack, false)
+}
+
+func (st *inlineState) eligibleT(pk *packagesPkg, call *ast.CallExpr, stack []*types.Func, tail bool) *FuncInfo {
 	fn := callee(pk.TypesInfo, call)
 	if fn == nil {
 		return nil
 	}
 	h := st.isNew[fn]
 	if h == nil || h.Pkg != pk {
+		return nil
+	}
+	if st.tailOnly[fn] && !tail {
 		return nil
 	}
 	for _, s := range stack {
@@ -411,7 +542,7 @@ func (st *inlineState) newIdent(pk *packagesPkg, name string, pos token.Pos, obj
 }
 
 // instantiate copies the helper's body for one call site.
-func (st *inlineState) instantiate(pk *packagesPkg, call *ast.CallExpr, h *FuncInfo, stack []*types.Func) (pre []ast.Stmt, results []ast.Expr, ok bool) {
+func (st *inlineState) instantiate(pk *packagesPkg, call *ast.CallExpr, h *FuncInfo, stack []*types.Func, lhsObjs []types.Object) (pre []ast.Stmt, results []ast.Expr, ok bool) {
 	info := pk.TypesInfo
 	st.n++
 	n := st.n
@@ -425,11 +556,19 @@ func (st *inlineState) instantiate(pk *packagesPkg, call *ast.CallExpr, h *FuncI
 
 	bind := func(names []*ast.Ident, arg ast.Expr) {
 		if len(names) == 0 || names[0].Name == "_" {
-			blank := &ast.Ident{NamePos: pos, Name: "_"}
-			pre = append(pre, &ast.AssignStmt{Lhs: []ast.Expr{blank}, TokPos: pos, Tok: token.ASSIGN, Rhs: []ast.Expr{arg}})
+			if !pureExpr(arg) {
+				blank := &ast.Ident{NamePos: pos, Name: "_"}
+				pre = append(pre, &ast.AssignStmt{Lhs: []ast.Expr{blank}, TokPos: pos, Tok: token.ASSIGN, Rhs: []ast.Expr{arg}})
+			}
 			return
 		}
 		obj := info.Defs[names[0]]
+		// a parameter that the helper never assigns and whose argument is a plain name / selector / address stands for
+		// that argument: the copy then speaks about the caller's own objects
+		if obj != nil && pureExpr(arg) && !assignedOrAddressed(info, h.Decl.Body, obj) {
+			substituteObj(info, body, obj, arg)
+			return
+		}
 		id := st.newIdent(pk, names[0].Name, pos, obj, true)
 		pre = append(pre, &ast.AssignStmt{Lhs: []ast.Expr{id}, TokPos: pos, Tok: token.DEFINE, Rhs: []ast.Expr{arg}})
 	}
@@ -470,6 +609,81 @@ func (st *inlineState) instantiate(pk *packagesPkg, call *ast.CallExpr, h *FuncI
 			}
 		}
 	}
+	direct := false
+	if lhsObjs != nil && len(lhsObjs) == len(resObjs) && len(resObjs) > 0 {
+		direct = true
+		// a helper local that is the only non-zero value ever returned in a position IS the caller's variable
+		cands := make([]map[types.Object]bool, len(resObjs))
+		bad := make([]bool, len(resObjs))
+		inspectNoLit(body, func(x ast.Node) bool {
+			ret, isRet := x.(*ast.ReturnStmt)
+			if !isRet {
+				return true
+			}
+			if len(ret.Results) != len(resObjs) {
+				if len(ret.Results) != 0 {
+					for j := range bad {
+						bad[j] = true
+					}
+				}
+				return true
+			}
+			for j, e := range ret.Results {
+				e = ast.Unparen(e)
+				if tv, has := info.Types[e]; has && (tv.IsNil() || tv.Value != nil) {
+					continue // nil / a constant
+				}
+				if cl, isCL := e.(*ast.CompositeLit); isCL && len(cl.Elts) == 0 {
+					continue // zero struct
+				}
+				id, isID := e.(*ast.Ident)
+				if !isID {
+					bad[j] = true
+					continue
+				}
+				y, isVar := info.Uses[id].(*types.Var)
+				if !isVar || y.IsField() || !posIn(h.Decl.Body, y.Pos()) {
+					bad[j] = true
+					continue
+				}
+				if cands[j] == nil {
+					cands[j] = map[types.Object]bool{}
+				}
+				cands[j][y] = true
+			}
+			return true
+		})
+		used := map[types.Object]bool{}
+		for j := range resObjs {
+			if lhsObjs[j] == nil {
+				continue
+			}
+			resObjs[j] = lhsObjs[j]
+			if bad[j] || len(cands[j]) != 1 {
+				continue
+			}
+			for y := range cands[j] {
+				if used[y] {
+					continue
+				}
+				used[y] = true
+				x := lhsObjs[j]
+				ast.Inspect(body, func(nn ast.Node) bool {
+					if id, isID := nn.(*ast.Ident); isID {
+						if info.Uses[id] == y {
+							info.Uses[id] = x
+							id.Name = x.Name()
+						}
+						if info.Defs[id] == y {
+							info.Defs[id] = x
+							id.Name = x.Name()
+						}
+					}
+					return true
+				})
+			}
+		}
+	}
 	useRes := func() []ast.Expr {
 		var out []ast.Expr
 		for _, o := range resObjs {
@@ -479,6 +693,21 @@ func (st *inlineState) instantiate(pk *packagesPkg, call *ast.CallExpr, h *FuncI
 	}
 	jump := func(at token.Pos) ast.Stmt {
 		return &ast.BranchStmt{TokPos: at, Tok: token.GOTO, Label: &ast.Ident{NamePos: at, Name: label}}
+	}
+	// a helper whose only return is its last statement needs no result variables and no jump
+	nret := 0
+	inspectNoLit(body, func(x ast.Node) bool {
+		if _, isRet := x.(*ast.ReturnStmt); isRet {
+			nret++
+		}
+		return true
+	})
+	if nret == 1 && len(body.List) > 0 && !direct {
+		if ret, isRet := body.List[len(body.List)-1].(*ast.ReturnStmt); isRet && (len(ret.Results) == len(resObjs)) {
+			pre = append(pre, body.List[:len(body.List)-1]...)
+			st.notes = append(st.notes, "new helper "+h.Name()+" inlined at "+st.p.Pos(call.Pos()))
+			return pre, ret.Results, true
+		}
 	}
 	// returns of the copy (not those of nested literals)
 	astutil.Apply(body, func(c *astutil.Cursor) bool {
@@ -503,6 +732,9 @@ func (st *inlineState) instantiate(pk *packagesPkg, call *ast.CallExpr, h *FuncI
 	pre = append(pre, body.List...)
 	pre = append(pre, &ast.LabeledStmt{Label: &ast.Ident{NamePos: pos, Name: label}, Colon: pos, Stmt: &ast.EmptyStmt{Semicolon: pos, Implicit: true}})
 	st.notes = append(st.notes, "new helper "+h.Name()+" inlined at "+st.p.Pos(call.Pos()))
+	if direct {
+		return pre, nil, true
+	}
 	return pre, useRes(), true
 }
 
@@ -672,4 +904,152 @@ func copyInfo(info *types.Info, mapping map[ast.Node]ast.Node) {
 			}
 		}
 	}
+}
+
+
+// pureExpr: a name, a selector chain on one, its address or dereference, a basic literal, nil/true/false.
+func pureExpr(e ast.Expr) bool {
+	switch x := ast.Unparen(e).(type) {
+	case *ast.Ident, *ast.BasicLit:
+		return true
+	case *ast.SelectorExpr:
+		return pureExpr(x.X)
+	case *ast.StarExpr:
+		return pureExpr(x.X)
+	case *ast.UnaryExpr:
+		return x.Op == token.AND && pureExpr(x.X)
+	}
+	return false
+}
+
+func assignedOrAddressed(info *types.Info, body ast.Node, obj types.Object) bool {
+	found := false
+	ast.Inspect(body, func(n ast.Node) bool {
+		switch x := n.(type) {
+		case *ast.AssignStmt:
+			for _, l := range x.Lhs {
+				if id, ok := ast.Unparen(l).(*ast.Ident); ok && (info.Uses[id] == obj || info.Defs[id] == obj) {
+					found = true
+				}
+			}
+		case *ast.IncDecStmt:
+			if id, ok := ast.Unparen(x.X).(*ast.Ident); ok && info.Uses[id] == obj {
+				found = true
+			}
+		case *ast.RangeStmt:
+			for _, e := range []ast.Expr{x.Key, x.Value} {
+				if id, ok := e.(*ast.Ident); ok && (info.Uses[id] == obj || info.Defs[id] == obj) {
+					found = true
+				}
+			}
+		case *ast.UnaryExpr:
+			if id, ok := ast.Unparen(x.X).(*ast.Ident); ok && x.Op == token.AND && info.Uses[id] == obj {
+				found = true
+			}
+		}
+		return !found
+	})
+	return found
+}
+
+// substituteObj replaces every use of obj in root by a fresh copy of repl.
+func substituteObj(info *types.Info, root ast.Node, obj types.Object, repl ast.Expr) {
+	astutil.Apply(root, func(c *astutil.Cursor) bool {
+		id, ok := c.Node().(*ast.Ident)
+		if !ok || info.Uses[id] != obj {
+			return true
+		}
+		// not the Sel of a selector, not a key of a composite literal field
+		if sel, isSel := c.Parent().(*ast.SelectorExpr); isSel && sel.Sel == id {
+			return true
+		}
+		if kv, isKV := c.Parent().(*ast.KeyValueExpr); isKV && kv.Key == ast.Expr(id) {
+			if _, isField := info.Uses[id].(*types.Var); isField && info.Uses[id].(*types.Var).IsField() {
+				return true
+			}
+		}
+		m := map[ast.Node]ast.Node{}
+		cp := cloneNode(repl, m).(ast.Expr)
+		copyInfo(info, m)
+		if _, simple := cp.(*ast.Ident); !simple {
+			cp = &ast.ParenExpr{Lparen: id.Pos(), X: cp, Rparen: id.End()}
+			if tv, has := info.Types[repl]; has {
+				info.Types[cp] = tv
+			}
+		}
+		c.Replace(cp)
+		return false
+	}, nil)
+}
+
+
+// unifyResults: the statement `x1, x2 := helper(…)` whose inlined copy (pre) ends with the result expressions
+// y1, y2 – distinct locals of the helper – is expressed by renaming y_i to x_i inside the copy.
+func unifyResults(info *types.Info, as *ast.AssignStmt, results []ast.Expr, helper *FuncInfo, pre []ast.Stmt) bool {
+	type pair struct{ y, x types.Object }
+	var pairs []pair
+	seen := map[types.Object]bool{}
+	for i, r := range results {
+		yid, ok := ast.Unparen(r).(*ast.Ident)
+		if !ok {
+			return false
+		}
+		y, isVar := info.Uses[yid].(*types.Var)
+		named := false
+		if res := helper.Obj.Type().(*types.Signature).Results(); res != nil {
+			for j := 0; j < res.Len(); j++ {
+				named = named || res.At(j) == y
+			}
+		}
+		if !isVar || y.IsField() || !(posIn(helper.Decl.Body, y.Pos()) || named) || seen[y] {
+			return false // not a local of the helper body (parameter, named result declared in the signature, global)
+		}
+		seen[y] = true
+		xid, ok := ast.Unparen(as.Lhs[i]).(*ast.Ident)
+		if !ok {
+			return false
+		}
+		if xid.Name == "_" {
+			continue
+		}
+		x := info.Defs[xid]
+		if x == nil {
+			x = info.Uses[xid]
+		}
+		if x == nil {
+			return false
+		}
+		pairs = append(pairs, pair{y, x})
+	}
+	for _, s := range pre {
+		ast.Inspect(s, func(n ast.Node) bool {
+			id, ok := n.(*ast.Ident)
+			if !ok {
+				return true
+			}
+			for _, pr := range pairs {
+				if info.Uses[id] == pr.y {
+					info.Uses[id] = pr.x
+					id.Name = pr.x.Name()
+				}
+				if info.Defs[id] == pr.y {
+					info.Defs[id] = pr.x
+					id.Name = pr.x.Name()
+				}
+			}
+			return true
+		})
+	}
+	return true
+}
+
+
+func initOf(s ast.Stmt) ast.Stmt {
+	switch x := s.(type) {
+	case *ast.IfStmt:
+		return x.Init
+	case *ast.SwitchStmt:
+		return x.Init
+	}
+	return nil
 }
